@@ -50,6 +50,43 @@ __CPROVER_assigns(__CPROVER_object_whole(b))
 
 blocks_ctor = make_ctor()
 
+# "(size, remainder) = divmod(total, FINAL number of blocks)": the value identity needs two symbolic 64-bit divider circuits to be
+# related and does not finish; it is decided structurally instead (typestate): every write of m_num_blocks bumps a ghost version,
+# the writes of m_block_size / m_remainder must be `total / num` and `total % num` of the CURRENT version (same-state identity:
+# trivial when the code says exactly that), and at exit both must carry the final version.
+TS_MODEL = r"""
+size_t NB_VER, BS_VER, REM_VER; int BS_DEAD_BRANCH;
+"""
+blocks_ctor_ts = Unit(
+    name="blocks_ctor_ts", file=POOL_H,
+    anchor=r"thread_pool<T>::blocks::blocks\(const T& first_index_,",
+    sig="void blocks_ctor_ts(struct blocks *b, size_t first_index_, size_t index_after_last_, size_t num_blocks_, size_t min_size_)",
+    pre=TS_MODEL,
+    body_prefix="b->m_first_index = first_index_; b->m_index_after_last = index_after_last_; b->m_num_blocks = num_blocks_; NB_VER = 0; BS_VER = SIZE_MAX; REM_VER = SIZE_MAX; BS_DEAD_BRANCH = 0;\n",
+    rules=[MEMBERS,
+           V(r"std::size_t\{ 1 \}", "((size_t) 1)"),
+           V(r"static_cast<size_t>\(", "(size_t)("),
+           # the `m_block_size == 0` repair branch is dead (block size >= 1 is lemma 'size'); it is marked, not analysed
+           V(r"if \(b->m_block_size == 0\)\s*\{", "if (b->m_block_size == 0) { BS_DEAD_BRANCH = 1;"),
+           V(r"b->m_num_blocks = ([^;]+);", r"b->m_num_blocks = (NB_VER = NB_VER + 1, \1);"),
+           V(r"b->m_block_size = ([^;]+);",
+             r'{ size_t v_ = (\1); FSL_CHECK(BS_DEAD_BRANCH || v_ == total_size / b->m_num_blocks, "C11 block size is total / (current number of blocks)"); BS_VER = NB_VER; b->m_block_size = v_; }'),
+           V(r"b->m_remainder = ([^;]+);",
+             r'{ size_t v_ = (\1); FSL_CHECK(v_ == total_size % b->m_num_blocks, "C11 remainder is total % (current number of blocks)"); REM_VER = NB_VER; b->m_remainder = v_; }')],
+)
+H_TS = r"""
+size_t nondet_size_t(void);
+void h_blocks_ctor_ts(void)
+{
+    struct blocks bb; size_t f = nondet_size_t(), l = nondet_size_t(), n = nondet_size_t(), m = nondet_size_t();
+    __CPROVER_assume(1 <= n && n <= POOL_MAX && l > f);
+    blocks_ctor_ts(&bb, f, l, n, m);
+    __CPROVER_assert(BS_DEAD_BRANCH || (BS_VER == NB_VER && REM_VER == NB_VER),
+                     "C11 block size and remainder are both computed from the FINAL number of blocks");
+    __CPROVER_assert(0, "canary: postcondition point reachable");
+}
+"""
+
 blocks_start = Unit(
     name="blocks_start", file=POOL_H,
     anchor=r"T thread_pool<T>::blocks::start\(const std::size_t block\) const",
@@ -192,6 +229,10 @@ GROUPS = {
               clause="start(0) = first; no overflow in start(k) for indices <= 2^40"),
         Group(name="pool.blocks_mono", units=[blocks_ctor, blocks_start], harness=H_MONO, entry="h_mono", backend="cvc5", timeout=600, min_obligations=3, replay="replay/pool.cpp",
               clause="blocks non-empty, strictly increasing, lengths size or size+1 (so every index lies in exactly one block)"),
+        Group(name="pool.blocks_ctor.divmod_shape", units=[blocks_ctor, blocks_ctor_ts], harness=H_TS, entry="h_blocks_ctor_ts", backend="sat", timeout=300,
+              min_obligations=3, replay="replay/pool.cpp", no_checks=["--div-by-zero-check"],
+              clause="(block size, remainder) = divmod(total, FINAL number of blocks), decided structurally: each is `total / num` resp. `total % num` "
+                     "of the number of blocks current at that point, and no later write of the number of blocks follows (ghost versions)"),
         Group(name="pool.blocks_last", units=[blocks_ctor, blocks_start, blocks_end], harness=H_LAST, entry="h_last", backend="cvc5", timeout=600, min_obligations=3, replay="replay/pool.cpp",
               clause="the last block ends at index_after_last, is non-empty and no earlier block reaches past it (uses the assumed division identity)"),
         Group(name="pool.blocks_num", units=[blocks_ctor, blocks_num], harness=H("blocks_num_blocks", "size_t r = blocks_num_blocks(b)", "const struct blocks *b;"),
